@@ -117,7 +117,7 @@ func (d *c04) send(m *mounting, where string, mi *methodInfo, verb, uri string, 
 			d.rep.Fail("http:crash:"+where, "a panic escapes ServeHTTP for a malformed request (the connection is dropped)", c04Site, c, nil)
 			return
 		}
-	case <-time.After(2 * time.Second):
+	case <-time.After(hangDeadline):
 		d.hangs++
 		d.rep.Count("outcome=hang")
 		d.rep.Fail("http:hang:"+where, "the request does not complete within the 2 s deadline", c04Site, c, nil)
@@ -380,7 +380,7 @@ func (d *c04) feed(mi *methodInfo, args []reflect.Value, where string, status in
 		var cr callResult
 		select {
 		case cr = <-done:
-		case <-time.After(2 * time.Second):
+		case <-time.After(hangDeadline):
 			d.rep.Fail("client:hang:"+where, "the client call does not return within 2 s on a hostile response", c04Site,
 				&c04Resp{Where: where, Method: mi.ID(), Status: status, Header: hdr, Body: body, Note: note}, nil)
 			return
@@ -522,3 +522,6 @@ func runC04HTTP(cfg *hx.Config) {
 	d.rep.Extra["hangs"] = d.hangs
 	d.rep.Write(cfg.Out)
 }
+
+// a request that does not complete within this deadline counts as a hang (generous: the machine may be loaded)
+const hangDeadline = 15 * time.Second
